@@ -27,6 +27,7 @@ def run(ctx):
     r93(ctx, api)
     r94(ctx, wr)
     ar.fresh_part_rule(ctx, 'R9.5')
+    ar.single_file_route_rule(ctx, 'R9.17')
     ar.index_normalisation_rule(ctx, 'R9.6')
     r98(ctx)
     from . import findings2 as _f2
